@@ -33,6 +33,28 @@ META = {
 HOLDING = {"Status.FIREABLE", "Status.RUNNING"}
 
 
+def _inline_temps(f, expr, keep, depth=3):
+    """Replace single-definition local temporaries (`changed = status != previous`) by their defining expression."""
+    import copy
+
+    for _ in range(depth):
+        names = {n.id for n in ast.walk(expr) if isinstance(n, ast.Name)} - set(keep) - {"self", "Status"}
+        sub = {}
+        for nm in names:
+            ds = defs_of(f, nm)
+            if len(ds) == 1 and ds[0].kind == "assign" and ds[0].value is not None and isinstance(ds[0].stmt, ast.Assign):
+                sub[nm] = ds[0].value
+        if not sub:
+            break
+
+        class T(ast.NodeTransformer):
+            def visit_Name(self, node):
+                return copy.deepcopy(sub[node.id]) if node.id in sub else node
+
+        expr = T().visit(copy.deepcopy(expr))
+    return expr
+
+
 def r1(ctx):
     p = ctx.prog
     callers = p.callers(f"{SCHED}._free_resources")
@@ -62,6 +84,7 @@ def r1(ctx):
         prevs += [unparse(n.targets[0]) for n in f.body_nodes() if isinstance(n, ast.Assign) and isinstance(n.targets[0], ast.Name) and unparse(n.value).endswith(".status")]
         ctx.require(bool(prevs), "C11.R1: capture of the previous status not found")
         PREV = prevs[0]
+        conj = [_inline_temps(f, t, {PREV, "status"}) for t in conj]
         st_tests = [t for t in conj if ("status" in unparse(t) or PREV in unparse(t)) and "job_allocation :=" not in unparse(t) and "allocation :=" not in unparse(t)]
         ctx.require(bool(st_tests), "C11.R1: release is not guarded by any status test")
         guard = ast.BoolOp(op=ast.And(), values=st_tests) if len(st_tests) > 1 else st_tests[0]
